@@ -427,8 +427,10 @@ func runC10(tier string) int {
 	r.Set("alphabet", len(c10Alphabet))
 	r.Assume("expected line = name, then the source tokens joined by single spaces with no space before a comma; constants replaced by their value; an inline text / moves() that is a whole argument replaced by its label",
 		"no empty arguments, inline data only as whole arguments, parentheses balanced to depth 2 (the property's domain)")
+	// two commands whose inline texts are different strings with equal 64-bit digests: each command line carries the label of its own text
+	hashCollisionFiles(r, "C10")
 	return r.Finish(r.Get("evaluations"), r.Get("nontrivial"),
-		"every argument token sequence of length <= L over a 26-token alphabet (a two-part text with a run of comment lines between the parts, an ascii text ending in 0, identifiers incl. multi-byte, keywords, decimal/negative/hex numbers, operators, an illegal character, parentheses, comma, two constants, inline text, moves()) that is in the domain, with 11 command names incl. case variants of end / return / goto / call (all names for <= 1 token, rotating beyond), in 13 contexts (in the inline script of the first of two tables of a mapscripts statement, as an AutoVar command in the middle of a condition, after a command whose inline data are spelled like this command's data joined / typed, alone, middle of a stretch, twice in a row, all on one line, inside an if body, inside a poryswitch case selected through _ / directly, last command of an if body / loop body / switch case); plus every identifier-like literal of the compiler's own source as command name and as argument in 3 contexts; plus commands with K arguments and stretches of K commands for every K up to the bound in the coverage; the whole emitted file is compared byte for byte with the generator's expectation; non-trivial = >= 2 arguments and nested parentheses")
+		"every argument token sequence of length <= L over a 26-token alphabet (a two-part text with a run of comment lines between the parts, an ascii text ending in 0, identifiers incl. multi-byte, keywords, decimal/negative/hex numbers, operators, an illegal character, parentheses, comma, two constants, inline text, moves()) that is in the domain, with 11 command names incl. case variants of end / return / goto / call (all names for <= 1 token, rotating beyond), in 13 contexts (in the inline script of the first of two tables of a mapscripts statement, as an AutoVar command in the middle of a condition, after a command whose inline data are spelled like this command's data joined / typed, alone, middle of a stretch, twice in a row, all on one line, inside an if body, inside a poryswitch case selected through _ / directly, last command of an if body / loop body / switch case); plus every identifier-like literal of the compiler's own source as command name and as argument in 3 contexts; plus prepared pairs of inline texts with equal digests under common 64-bit hashes; plus commands with K arguments and stretches of K commands for every K up to the bound in the coverage; the whole emitted file is compared byte for byte with the generator's expectation; non-trivial = >= 2 arguments and nested parentheses")
 }
 
 // c10Switches: the compile switches of every C10 compilation. Besides PV (which selects the poryswitch cases of the
